@@ -201,7 +201,14 @@ pub fn emit(seed: u64, n: usize, color_names_file: &str) {
         let ts2 = trees.clone();
         let txt = catch(move || ts2.iter().map(|t| format!("{}", t)).collect::<String>());
         let impl_s = match txt { Some(s) => format!("(Some {})", us(&s)), None => "None".into() };
-        println!("@@CASE@@ T\n({}, {})", list(&trees[..], |t| tree_term(t, &cn)), impl_s);
+        // class of the input (for the known-findings selector): does some primitive (leaf operation) carry children?
+        fn prim_with_children(t: &Scad) -> bool {
+            let leaf = matches!(t.op, ScadOp::Circle { .. } | ScadOp::Square { .. } | ScadOp::Polygon { .. } | ScadOp::Text { .. } | ScadOp::Import { .. } | ScadOp::Sphere { .. }
+                                      | ScadOp::Cube { .. } | ScadOp::Cylinder { .. } | ScadOp::Polyhedron { .. } | ScadOp::Surface { .. });
+            (leaf && !t.children.is_empty()) || t.children.iter().any(prim_with_children)
+        }
+        let cls = if trees.iter().any(prim_with_children) { "primitive_with_children" } else { "ordinary" };
+        println!("@@CASE@@ T\n({}, {})\n@@CLS@@ {}", list(&trees[..], |t| tree_term(t, &cn)), impl_s, cls);
     };
     for rep in 0..6 {
         for kind in 0..N_KINDS {
